@@ -1,6 +1,6 @@
 """C05 — history is hash-chained and tamper-evident."""
 from ..prims import *
-from ..guards import check_strength, check_zip_lengths
+from ..guards import check_strength, check_zip_lengths, check_whole_sequence
 from ..guards import find_guard
 from ..baselines import baseline
 
@@ -126,6 +126,7 @@ def run(ctx):
     # ---- R3
     seen = {}
     _zip_done = set()
+    _seq_done = set()
     for (path, enum, variant, ta, tb) in GUARDS:
         f = prog.fn(path)
         st, detail = find_guard(prog, f, enum, variant, ta, tb)
@@ -136,6 +137,7 @@ def run(ctx):
         if st == "ok":
             check_strength(rep, "C05.R3", key, "C05", prog, f, enum, variant, ta, tb)
         check_zip_lengths(rep, "C05.R3", prog, f, _zip_done)
+        check_whole_sequence(rep, "C05.R3", prog, f, _seq_done)
     # the verification functions are actually on the entry paths
     must_reach = {
         "replay": [PS + "validate_replay_base", PS + "restore_replay_base", PS + "advance_replay_state", PS + "replay_artifacts_for_entry"],
